@@ -1201,8 +1201,12 @@ def i_DIV(i, fmap):
     m, d = {8: (al, ah), 16: (ax, dx), 32: (eax, edx), 64: (rax, rdx)}[src.size]
     md_ = composer([m, d])
     s_ = src.zeroextend(md_.size)
-    q_ = fmap(md_ / s_)
-    r_ = fmap(md_ % s_)
+    if fmap(src == 0):
+        # divide error (#DE, not modelled): quotient and remainder are unknown
+        q_ = r_ = top(md_.size)
+    else:
+        q_ = fmap(md_ / s_)
+        r_ = fmap(md_ % s_)
     d, hi = _r32_zx64(d, r_[0 : src.size])
     fmap[d] = hi
     m, lo = _r32_zx64(m, q_[0 : src.size])
